@@ -1810,7 +1810,13 @@ class Compiler:
 
             # the filler writes to the stream it is handed (which is
             # not the caller's, e.g. inside a translation block)
+            # ... and converts inserted values with helpers of its own:
+            # those of the enclosing function would translate with the
+            # domain, context and target language of the macro use,
+            # not with the filler's
             body = template("__append = __stream.append") + \
+                emit_func_convert("__convert") + \
+                emit_func_convert_and_escape("__quote") + \
                 self.visit_Context(slot)
 
             assert self._current_slot.pop() == slot.name
